@@ -29,6 +29,9 @@ CFGS = {
     "libm":   dict(features=["libm"], default=True, sse=True),
     "diff":   dict(features=[], default=True, sse=True, assert_copy=["glam-assert"]),
     "diffs":  dict(features=["scalar-math"], default=True, sse=False, assert_copy=["glam-assert", "scalar-math"]),
+    # release-like code generation: debug assertions compiled out as in `cargo build --release` (Kani keeps arithmetic overflow checks on whatever -C overflow-checks says)
+    "sse2rel":   dict(features=[], default=True, sse=True, rustflags="-C debug-assertions=off -C overflow-checks=off"),
+    "scalarrel": dict(features=["scalar-math"], default=True, sse=False, rustflags="-C debug-assertions=off -C overflow-checks=off"),
     "feat":   dict(features=["serde", "bytemuck", "mint"], default=True, sse=True),
     "feats":  dict(features=["serde", "bytemuck", "mint", "scalar-math"], default=True, sse=False),
 }
@@ -241,7 +244,7 @@ unexpected_cfgs = {{ level = "allow", check-cfg = ['cfg(kani)'] }}
 def kani_codegen(cdir, cfg, tag, log, slot=None):
     """compile the harness crate (and /repo's working tree) with Kani; returns list of harness metadata"""
     tdir = os.path.join(BUILD, "target", f"kani-{cfg}" + (f"-{slot}" if slot is not None else ""))
-    env = dict(os.environ, RUSTFLAGS="--cap-lints warn", CARGO_NET_OFFLINE="true")
+    env = dict(os.environ, RUSTFLAGS=("--cap-lints warn " + CFGS[cfg].get("rustflags", "")).strip(), CARGO_NET_OFFLINE="true")
     env.pop("RUSTUP_TOOLCHAIN", None)
     t0 = time.time()
     r = subprocess.run(["cargo", "kani", "--only-codegen", "-Z", "stubbing", "-Z", "c-ffi",
